@@ -37,15 +37,37 @@ impl Line {
 
 const COMMAND_WORDS: [&str; 6] = ["uci", "isready", "ucinewgame", "position", "go", "quit"];
 
+/// Lines of the UCI vocabulary that this engine does not implement (GUI-to-engine commands other
+/// than the six it handles, with their arguments as the protocol text gives them, and
+/// engine-to-GUI lines a confused peer might echo).  Every token-prefix of each is also an
+/// unknown line ("debug", "setoption name", ...).
+const UCI_VOCABULARY: [&str; 22] = [
+    "debug on",
+    "debug off",
+    "setoption name Hash value 128",
+    "setoption name Nullmove value true",
+    "setoption name Clear Hash",
+    "setoption name NalimovPath value c:\\chess\\tb\\4;c:\\chess\\tb\\5",
+    "register later",
+    "register name Stefan MK code 4359874324",
+    "stop",
+    "ponderhit",
+    "id name Shredder X.Y",
+    "id author Stefan MK",
+    "uciok",
+    "readyok",
+    "bestmove g1f3 ponder d8f6",
+    "copyprotection ok",
+    "registration checking",
+    "info depth 12 nodes 123456 nps 100000",
+    "info currmove e2e4 currmovenumber 1",
+    "option name Hash type spin default 1 min 1 max 128",
+    "option name Style type combo default Normal var Solid var Normal var Risky",
+    "info string debug stop ponderhit",
+];
+
 pub fn gen_unknown(s: &mut Src) -> String {
     let fixed = [
-        "stop",
-        "debug on",
-        "debug off",
-        "setoption name Hash value 16",
-        "setoption name Threads value 4",
-        "ponderhit",
-        "register later",
         "xboard",
         "d",
         "eval",
@@ -62,24 +84,40 @@ pub fn gen_unknown(s: &mut Src) -> String {
         "perft 3",
         "flip",
         "--version",
-        "setoption name UCI_Chess960 value false",
+        "debug maybe",
+        "setoption value",
     ];
-    if s.chance(70) {
-        return fixed[s.below(fixed.len())].to_string();
-    }
-    // random printable words
-    let n = 1 + s.below(4);
-    let mut words = Vec::new();
-    for _ in 0..n {
-        let len = 1 + s.below(8);
-        let w: String = (0..len).map(|_| (b'!' + s.below(94) as u8) as char).collect();
-        words.push(w);
-    }
-    let t = words.join(" ");
-    if t.split_whitespace().any(|w| COMMAND_WORDS.contains(&w)) {
+    let t = match s.weighted(&[45, 25, 30]) {
+        0 => {
+            // a vocabulary line, possibly truncated to a token-prefix
+            let line = UCI_VOCABULARY[s.below(UCI_VOCABULARY.len())];
+            let toks: Vec<&str> = line.split(' ').collect();
+            let keep = if s.chance(50) { toks.len() } else { 1 + s.below(toks.len()) };
+            toks[..keep].join(" ")
+        }
+        1 => fixed[s.below(fixed.len())].to_string(),
+        _ => {
+            // random printable words
+            let n = 1 + s.below(4);
+            let mut words = Vec::new();
+            for _ in 0..n {
+                let len = 1 + s.below(8);
+                let w: String = (0..len).map(|_| (b'!' + s.below(94) as u8) as char).collect();
+                words.push(w);
+            }
+            words.join(" ")
+        }
+    };
+    if t.split_whitespace().any(|w| COMMAND_WORDS.contains(&w)) || t.trim().is_empty() {
         return "stop".into();
     }
-    t
+    // leading / trailing white space is allowed by the protocol
+    match s.below(8) {
+        0 => format!(" {}", t),
+        1 => format!("{} ", t),
+        2 => format!("\t{}\t", t),
+        _ => t,
+    }
 }
 
 pub fn gen_blank(s: &mut Src) -> String {
